@@ -58,7 +58,7 @@ theorem deriveChainId_translated_eq (v : Nat) (hv : Fits (v : Int)) :
 /-- crypto.ValidateSignatureValues over abstract constants: the block structure of the Go function computes the model's
     nested conditional. -/
 theorem ValidateSignatureValues_translated_abs (one N H : Nat) (v : UInt8) (r s : Nat) (homestead : Bool) :
-    Translated.ValidateSignatureValues (one : Int) (N : Int) (H : Int) v (r : Int) (s : Int) homestead
+    Translated.ValidateSignatureValues (g_common_Big1 := (one : Int)) (g_crypto_secp256k1_N := (N : Int)) (g_crypto_secp256k1_halfN := (H : Int)) v (r : Int) (s : Int) homestead
       = (if v.toNat != 0 && v.toNat != 1 then false
          else if decide (r < one) || decide (s < one) then false
          else if homestead && decide (s > H) then false
